@@ -184,7 +184,7 @@ def order_prefix(order):
 
 @st.composite
 def link(draw, blocks, label_pool, allow_replace=True, allow_atype_sel=True, prefer=None, bonded_only=False,
-         nonbond_sections=True, atype_replace=False):
+         nonbond_sections=True, atype_replace=False, removal_bias=False):
     orders = draw(st.sampled_from(ORDER_SETS))
     nres = len(orders)
     names = [b["name"] for b in blocks if len({a["resid"] for a in b["atoms"]}) == 1]
@@ -308,10 +308,12 @@ def link(draw, blocks, label_pool, allow_replace=True, allow_atype_sel=True, pre
             for key in draw(st.lists(st.sampled_from(keys_all), min_size=1, max_size=2, unique=True)):
                 pat.append([key, {"atype": draw(st.sampled_from(TYPES))}])
             patterns.append(pat)
-    if allow_replace and draw(st.integers(0, 1 if atype_replace else 6)) == 0:
+    if allow_replace and draw(st.integers(0, 1 if (atype_replace or removal_bias) else 6)) == 0:
         key = draw(st.sampled_from(keys_all))
         atoms[key] = dict(atoms[key])
         kind = 1 if atype_replace and draw(st.integers(0, 3)) > 0 else draw(st.integers(0, 2))
+        if removal_bias and not atype_replace:
+            kind = 0
         if kind == 0:
             atoms[key]["replace"] = {"atomname": None}       # the atom is removed
         elif kind == 1 and atype_replace:
@@ -406,7 +408,7 @@ LABELS = [("chiral", "R"), ("chiral", "S"), ("tag", "x")]
 def case(draw, with_links=True, max_res=8, mixed_nrexcl=False, routes=("json", "json", "seq", "txt"),
          allow_itp=True, allow_replace=True, min_res=1, allow_dangling=True, link_bias=False,
          bonded_only=False, f22_safe=False, min_blocks=1, name_modes=("homo", "block", "random"),
-         explicit_links=False):
+         explicit_links=False, removal_bias=False):
     nblocks = draw(st.integers(min_blocks, 3))
     names = RESNAMES[:nblocks]
     blocks = []
@@ -424,11 +426,11 @@ def case(draw, with_links=True, max_res=8, mixed_nrexcl=False, routes=("json", "
                                       min_res=min_res, name_modes=name_modes))
     prefer = sorted({n["resname"] for n in graph["nodes"]}) if link_bias else None
     if with_links:
-        atype_replace = allow_replace and draw(st.integers(0, 2)) == 0
+        atype_replace = allow_replace and not removal_bias and draw(st.integers(0, 2)) == 0
         for _ in range(draw(st.integers(1 if link_bias else 0, 4))):
             links.append(draw(link(blocks, label_pool, allow_replace=allow_replace, prefer=prefer,
                                    bonded_only=bonded_only, nonbond_sections=nonbond,
-                                   atype_replace=atype_replace)))
+                                   atype_replace=atype_replace, removal_bias=removal_bias)))
         if atype_replace:
             # selection by type is what makes a type replacement observable for later links
             retyped = {model_split_key(at["key"])[1] for lnk in links for at in lnk["atoms"]
